@@ -279,7 +279,7 @@ policy_harness! {
 // on add's outputs and the real estimator without any observer hook.
 // ------------------------------------------------------------------------------------------------
 
-fn add_real(n_max: usize) {
+fn add_real(n_max: usize, uf: bool) {
     let m = Arc::new(mrec::make(false));
     let (s, ents) = any_slfu(n_max);
     let used0 = ghost_sum(&ents);
@@ -287,6 +287,22 @@ fn add_real(n_max: usize) {
     let (p, _w) = mk_policy(any_tinylfu(1, 6), s, m);
     let key = nd::any_u64();
     let cost = nd::any_i64_in(0, COST_MAX);
+    #[cfg(kani)]
+    if uf {
+        use crate::policy::verif_harness::estuf;
+        estuf::reset();
+        let mut i = 0;
+        while i < 3 {
+            if let Some((k, _)) = ents[i] {
+                estuf::set(i, k, nd::any_i64_in(0, 16));
+            }
+            i += 1;
+        }
+        if ghost_get(&ents, key).is_none() {
+            estuf::set(3, key, nd::any_i64_in(0, 16));
+        }
+    }
+    let _ = uf;
     let est_key = policy_estimate(&p, key);
     let est = [
         ents[0].map_or(0, |e| policy_estimate(&p, e.0)),
@@ -379,13 +395,29 @@ fn add_real(n_max: usize) {
 policy_harness! {
     [kani::unwind(8)]
     fn c01_add_real_n2() {
-        add_real(2);
+        add_real(2, false);
     }
 }
 
 policy_harness! {
     [kani::unwind(9)]
     fn c01_add_real_n3() {
-        add_real(3);
+        add_real(3, false);
+    }
+}
+
+policy_harness! {
+    [kani::unwind(8),
+     kani::stub(crate::policy::TinyLFU::estimate, crate::policy::verif_harness::estuf::estimate)]
+    fn c07_add_rule_n2() {
+        add_real(2, true);
+    }
+}
+
+policy_harness! {
+    [kani::unwind(9),
+     kani::stub(crate::policy::TinyLFU::estimate, crate::policy::verif_harness::estuf::estimate)]
+    fn c07_add_rule_n3() {
+        add_real(3, true);
     }
 }
